@@ -287,7 +287,8 @@ Inductive GOK (f : nat) (w : which) (n : nat) : gen -> Prop :=
 | gok_yield r k : (forall x, spq f w n r = Some x -> GOK f w n (k x)) -> GOK f w n (GYield r k)
 | gok_raise e : GOK f w n (GRaise e)
 | gok_get c key k : GOK f w n (k None) ->
-    (forall x, Good c key x -> GOK f w n (k (Some x)) /\ geval (spq f) w n (k (Some x)) = geval (spq f) w n (k None)) ->
+    (forall x, Good c key x -> GOK f w n (k (Some x)) /\
+               (forall r, geval (spq f) w n (k None) = Some r -> geval (spq f) w n (k (Some x)) = Some r)) ->
     GOK f w n (GGet c key k)
 | gok_set c key v k : Good c key v -> GOK f w n k -> GOK f w n (GSet c key v k).
 Hypothesis gens_ok : forall f w n e, gens w n = Some e -> GOK f w n e.
@@ -352,7 +353,7 @@ Proof.
     pose proof (InProg_Fr _ _ _ _ Hp Hf0) as Hp0.
     destruct hit as [x|].
     + destruct (Hsome x (Hgood x eq_refl)) as [Hk Heq].
-      destruct (IH (Some x) s0 r Hk) as (s1 & Hd & Hi1 & Hf1); [rewrite Heq; exact Hg|exact Hi0|exact Hp0|].
+      destruct (IH (Some x) s0 r Hk) as (s1 & Hd & Hi1 & Hf1); [apply Heq; exact Hg|exact Hi0|exact Hp0|].
       exists s1. split; [exact Hd|]. split; [exact Hi1|]. eapply Fr_trans; eassumption.
     + destruct (IH None s0 r Hnone Hg Hi0 Hp0) as (s1 & Hd & Hi1 & Hf1).
       exists s1. split; [exact Hd|]. split; [exact Hi1|]. eapply Fr_trans; eassumption.
